@@ -132,18 +132,25 @@ fn rustls_half(tier: &str, extra: &[&str]) -> Result<Vec<Value>, String> {
 }
 
 pub fn run(ctx: &Ctx) {
-    ctx.set_rule("complete enumeration of the finite matrix {blocking, async} x {native-tls, rustls} x ignore flag {unset, false, true} x extra root {none, issuing CA as PEM, as DER, unrelated CA} x server certificate {valid for localhost, wrong host name, expired, self-signed leaf, signed by another CA} = 240 cells, each one real TLS connection from the library's client to a loopback TLS server (openssl) on ipps://localhost:<port>/ using committed certificate fixtures (thorough: also an IP-literal target, and the whole matrix 3 times). Oracle = policy model: must-reject => Err and 0 application bytes seen by the server after the handshake; must-accept => the scripted response. Non-trivial = every cell except {valid, issuing CA as PEM, flag unset}; distinct by cell id.");
+    ctx.set_rule("complete enumeration of the finite matrix {blocking, async} x {native-tls, rustls} x ignore flag {unset, false, true} x extra root {none, issuing CA as PEM, as DER, unrelated CA} x server certificate {valid for localhost, wrong host name, expired, self-signed leaf, signed by another CA} = 240 cells, each one real TLS connection from the library's client to a loopback TLS server (openssl) on ipps://localhost:<port>/ using committed certificate fixtures (thorough: also an IP-literal target, and the whole matrix 3 times in different cell orders; the quick run puts permissive cells before strict ones inside each block so that state leaking between clients would show). Oracle = policy model: must-reject => Err and 0 application bytes seen by the server after the handshake; must-accept => the scripted response. Non-trivial = every cell except {valid, issuing CA as PEM, flag unset}; distinct by cell id.");
     ctx.assume("the system trust store of the image is whatever it is; the fixtures never chain to it");
     ctx.assume("cells with flag=true and a bad certificate are recorded but not asserted");
     ctx.set_exhaustive(true);
     let rounds = ctx.tier.pick(1, 3);
     for round in 0..rounds {
         let with_ip = ctx.tier == Tier::Thorough;
-        match run_matrix("native-tls", with_ip) {
+        // round 0: permissive configurations first (state leaking between clients shows only then);
+        // round 1: plain order; later rounds: a permutation derived from the seed
+        let order: u64 = match round {
+            0 => 0,
+            1 => 1,
+            r => ctx.seed.wrapping_mul(0x9e37_79b9_7f4a_7c15).wrapping_add(r as u64) | 2,
+        };
+        match run_matrix("native-tls", with_ip, order) {
             Ok(rs) => absorb(ctx, &rs.iter().map(result_json).collect::<Vec<_>>()),
             Err(e) => ctx.inconclusive(&format!("native-tls matrix: {e}")),
         }
-        match rustls_half(ctx.tier.name(), &[]) {
+        match rustls_half(ctx.tier.name(), &[&order.to_string()]) {
             Ok(rs) => absorb(ctx, &rs),
             Err(e) => ctx.inconclusive(&format!("rustls matrix: {e}")),
         }
